@@ -115,16 +115,16 @@ def run_scenario(ctx, report, name, spec, timeout_ms, gc=False, fuel=None):
                                 continue
                             if want is None:
                                 if v.variant != 'None':
-                                    vios.append({'key': 'dwarf.dead-maps', 'what': '[%s] %s (address %d) belongs to removed code but is mapped to %r' % (name, what, addr, v)})
+                                    vios.append({'key': 'dwarf.dead-maps', 'what': '[%s] %s (address %d) belongs to removed code but is mapped to %r' % (name, what, addr, v), 'spec': spec, 'model': None, 'pc': list(s2.pc), 'dwarf_script': {'gc': bool(gc)}})
                                 continue
                             if v.variant == 'None':
-                                vios.append({'key': 'dwarf.%s.lost' % kind, 'what': '[%s] %s (address %d) is not mapped (tombstoned) although its function is emitted' % (name, what, addr), 'pad': None})
+                                vios.append({'key': 'dwarf.%s.lost' % kind, 'what': '[%s] %s (address %d) is not mapped (tombstoned) although its function is emitted' % (name, what, addr), 'pad': None, 'spec': spec, 'model': None, 'pc': list(s2.pc), 'dwarf_script': {'gc': bool(gc)}})
                                 continue
                             got = v.f[0].f[0].t
                             m = c11.equal_terms(report, s_.pc, got, want, timeout_ms)
                             if m is not None:
                                 vios.append(dict({'key': 'dwarf.%s' % kind, 'what': '[%s] %s (input address %d) is mapped %s bytes away from where it is in the output (%s)' % (
-                                    name, what, addr, m.eval(got - want, True).as_signed_long(), info(m))}, spec=spec, model=None, pc=list(s2.pc), pad_brtable=getattr(spec, 'pad_brtable', None)))
+                                    name, what, addr, m.eval(got - want, True).as_signed_long(), info(m))}, spec=spec, model=None, pc=list(s2.pc), dwarf_script={'gc': bool(gc)}, pad_brtable=getattr(spec, 'pad_brtable', None)))
                     def expect_within(kind, what, addr, pref, lo, hi, info):
                         """the mapped address lies in [lo, hi]: at or after the first byte of the function's own entry and at
                         or before its first emitted instruction (so the range / sequence covers every instruction of the
@@ -136,13 +136,15 @@ def run_scenario(ctx, report, name, spec, timeout_ms, gc=False, fuel=None):
                                 vios.append({'key': 'dwarf.panic', 'what': '[%s] address conversion of %s panics: %r' % (name, what, pc.pipeline_panic_events(s_)[:1])})
                                 continue
                             if v.variant == 'None':
-                                vios.append({'key': 'dwarf.%s.lost' % kind, 'what': '[%s] %s (address %d) is not mapped (tombstoned) although its function is emitted' % (name, what, addr), 'pad': None})
+                                vios.append({'key': 'dwarf.%s.lost' % kind, 'what': '[%s] %s (address %d) is not mapped (tombstoned) although its function is emitted' % (name, what, addr), 'pad': None, 'spec': spec, 'model': None, 'pc': list(s2.pc), 'dwarf_script': {'gc': bool(gc)}})
                                 continue
                             got = v.f[0].f[0].t
-                            m = c11.find_model(report, s_.pc, z3.Or(z3.ULT(got, lo), z3.UGT(got, hi)), timeout_ms)
+                            if c11.within_by_intervals(I, got, lo, hi):
+                                continue
+                            m = c11.find_model(report, s_.pc, z3.ULT(got, lo), timeout_ms) or c11.find_model(report, s_.pc, z3.UGT(got, hi), timeout_ms)
                             if m is not None:
                                 vios.append(dict({'key': 'dwarf.%s%s' % (kind, getattr(spec, 'key_suffix', '')), 'what': '[%s] %s (input address %d) is mapped %s bytes past the first instruction of the function in the output (%s)' % (
-                                    name, what, addr, m.eval(got - hi, True).as_signed_long(), info(m))}, spec=spec, model=None, pc=list(s2.pc), pad_brtable=getattr(spec, 'pad_brtable', None)))
+                                    name, what, addr, m.eval(got - hi, True).as_signed_long(), info(m))}, spec=spec, model=None, pc=list(s2.pc), dwarf_script={'gc': bool(gc)}, pad_brtable=getattr(spec, 'pad_brtable', None)))
                     for k, f in enumerate(spec.funcs):
                         e_start, b_start, e_end = input_layout(spec, k)
                         j = pi['func'].get(nimp + k)
@@ -152,7 +154,7 @@ def run_scenario(ctx, report, name, spec, timeout_ms, gc=False, fuel=None):
                             for what, a, pref in (('low_pc of removed function %d' % k, b_start, 'InclusiveFunctionEnd'), ('row at first instruction of removed function %d' % k, pos[0], 'InclusiveFunctionEnd')):
                                 expect('dead', what, a, pref, None, None)
                             continue
-                        j -= nimp
+                        j -= sum(1 for i_ in OUT['imports'] if i_['kind'] == 'func')          # imports may have been removed by gc
                         E, lb, L = ents[j]
                         body = OUT['code'][j]
                         old_lb = b_start - e_start
@@ -353,7 +355,7 @@ def run(tier, seed, only=None):
     items = [('scen', 'three-functions', lambda: c11.spec_for(3), False), ('scen', 'three-functions+gc', gc_spec, True), ('scen', 'resized-function', shrink_spec, False),
              ('scen', 'resized-function/leb3-to-1', shrink2_spec, False), ('leb', 'O10.4', None, False), ('file', 'O10.5', None, False)]
     from obligations import gen
-    gl = gen.generated(tier, seed, n_quick=2, n_thorough=18)
+    gl = gen.generated(tier, seed, n_quick=4, n_thorough=18, prefer_small=True)
     for name, sp in gl:
         items.append(('scen', name, (lambda sp=sp: sp), False))
         items.append(('scen', name + '+gc', (lambda sp=sp: sp), True))
